@@ -13,6 +13,35 @@ fn set<I: Iterator<Item = Point>>(i: I) -> Pts {
     i.take(5_000_000).map(|p| (p.x, p.y)).collect()
 }
 
+/// second position: above and left of the origin (TL is left of the origin and below it)
+const TL2: (i32, i32) = (-7, -9);
+
+/// the points a fill-only style paints through draw() on an unbounded draw_iter-only target
+fn drawn_fill<P>(p: &P) -> Pts
+where
+    P: Primitive + Copy,
+    Styled<P, PrimitiveStyle<embedded_graphics::pixelcolor::BinaryColor>>: Drawable<Color = embedded_graphics::pixelcolor::BinaryColor>,
+{
+    let mut t = egverif::targets::RecD::<embedded_graphics::pixelcolor::BinaryColor>::new();
+    let _ = p.into_styled(PrimitiveStyle::with_fill(embedded_graphics::pixelcolor::BinaryColor::On)).draw(&mut t);
+    t.map.keys().copied().collect()
+}
+
+/// `at_tl2` (a shape built at TL2, as points() and as painted by a fill-only style) must be `at_tl` moved by TL2 - TL
+fn same_elsewhere(name: &str, at_tl: &Pts, points_at_tl2: Pts, drawn_at_tl2: Option<Pts>, obs: &mut Obs) {
+    let (dx, dy) = (TL2.0 - TL.0, TL2.1 - TL.1);
+    let moved: Pts = at_tl.iter().map(|(x, y)| (x + dx, y + dy)).collect();
+    obs.class("second-position-above-the-origin");
+    if points_at_tl2 != moved {
+        obs.fail("same-curve-at-another-position", format!("{name}: points() at {:?} has {} points, at {:?} {} points; first difference {:?}", TL, at_tl.len(), TL2, points_at_tl2.len(), points_at_tl2.symmetric_difference(&moved).next()));
+    }
+    if let Some(d) = drawn_at_tl2 {
+        if d != moved {
+            obs.fail("filled-shape-paints-its-points", format!("{name} at {:?}: a fill-only style paints {} points, points() has {}; first difference {:?}", TL2, d.len(), moved.len(), d.symmetric_difference(&moved).next()));
+        }
+    }
+}
+
 /// every row and every column is one contiguous run
 fn runs_ok(s: &Pts) -> bool {
     let mut rows: BTreeMap<i32, Vec<i32>> = BTreeMap::new();
@@ -125,6 +154,13 @@ fn check_circle(d: u32, obs: &mut Obs) {
     let tl = Point::new(TL.0, TL.1);
     let circle = Circle::new(tl, d);
     let c = set(circle.points());
+    if d <= 12 {
+        iter_protocol("Circle::points()", 200, || circle.points(), obs);
+    }
+    if d <= 130 {
+        let c2 = Circle::new(Point::new(TL2.0, TL2.1), d);
+        same_elsewhere("circle", &c, set(c2.points()), Some(drawn_fill(&c2)), obs);
+    }
     obs.outcome(&c);
     obs.nontrivial_if(!c.is_empty());
     obs.class("circle");
@@ -165,6 +201,13 @@ fn check_circle(d: u32, obs: &mut Obs) {
 fn check_ellipse(w: u32, h: u32, obs: &mut Obs) {
     let tl = Point::new(TL.0, TL.1);
     let e = set(Ellipse::new(tl, Size::new(w, h)).points());
+    if w <= 10 && h <= 10 {
+        iter_protocol("Ellipse::points()", 120, || Ellipse::new(tl, Size::new(w, h)).points(), obs);
+    }
+    if w <= 130 && h <= 130 {
+        let e2 = Ellipse::new(Point::new(TL2.0, TL2.1), Size::new(w, h));
+        same_elsewhere("ellipse", &e, set(e2.points()), Some(drawn_fill(&e2)), obs);
+    }
     obs.outcome(&e);
     obs.nontrivial_if(!e.is_empty());
     obs.class("ellipse");
@@ -195,6 +238,13 @@ fn check_rrect(c: &Case, obs: &mut Obs) {
     let Case::RRect { w, h, tl, tr, br, bl } = c else { unreachable!() };
     let rr = mk_rrect(TL.0, TL.1, *w, *h, *tl, *tr, *br, *bl);
     let got = set(rr.points());
+    if got.len() <= 60 {
+        iter_protocol("RoundedRectangle::points()", 60, || rr.points(), obs);
+    }
+    if *w <= 130 && *h <= 130 {
+        let rr2 = mk_rrect(TL2.0, TL2.1, *w, *h, *tl, *tr, *br, *bl);
+        same_elsewhere("rounded rectangle", &got, set(rr2.points()), Some(drawn_fill(&rr2)), obs);
+    }
     obs.outcome(&got);
     obs.nontrivial_if(!got.is_empty());
     obs.class("rounded-rectangle");
@@ -289,6 +339,29 @@ fn check_angle_f(d: u32, st: f64, sw: f64, fractional: bool, obs: &mut Obs) {
     let (a0, a1) = (Angle::from_degrees(st as f32), Angle::from_degrees(sw as f32));
     let sp = set(Sector::new(tl, d, a0, a1).points());
     let ap = set(Arc::new(tl, d, a0, a1).points());
+    if d <= 8 && (start / 4) % 45 == 0 {
+        iter_protocol("Sector::points()", 80, || Sector::new(tl, d, a0, a1).points(), obs);
+        iter_protocol("Arc::points()", 80, || Arc::new(tl, d, a0, a1).points(), obs);
+    }
+    if d <= 33 {
+        let tl2 = Point::new(TL2.0, TL2.1);
+        let s2 = Sector::new(tl2, d, a0, a1);
+        // (a styled sector is rendered with its own threshold rule, so only points() is compared)
+        same_elsewhere("sector", &sp, set(s2.points()), None, obs);
+        same_elsewhere("arc", &ap, set(Arc::new(tl2, d, a0, a1).points()), None, obs);
+        // contains() describes the same point set as points()
+        if d <= 10 {
+            let s1 = Sector::new(tl, d, a0, a1);
+            for y in TL.1 - 1..=TL.1 + d as i32 {
+                for x in TL.0 - 1..=TL.0 + d as i32 {
+                    if s1.contains(Point::new(x, y)) != sp.contains(&(x, y)) {
+                        obs.fail("sector-contains-agrees-with-points", format!("contains(({x},{y})) = {}, in points(): {}", s1.contains(Point::new(x, y)), sp.contains(&(x, y))));
+                        break;
+                    }
+                }
+            }
+        }
+    }
     obs.outcome(&sp);
     obs.outcome(&ap);
     obs.nontrivial_if(!sp.is_empty() || !ap.is_empty());
